@@ -8,6 +8,7 @@ from rules import CallGuard, CallSink, RetSink, AggSink, PL
 from props.C04 import call_results, agg_field_operands
 
 META = {
+    "explanation_r6": 'Also (round 6): each peers option is written depending on that option alone (C20.peers.independent).',
     "explanation_more": "Also (round 5): hand-written value parsers of options the manager writes use the input string itself, not a trimmed / case-folded copy (C20.parser.verbatim).",
     "explanation": "Decides by cross-checking sibling implementations: (1) install vs upgrade: InstallNodeServiceCtxBuilder::build and "
                    "NodeService::build_upgrade_install_context emit the same multiset of flag literals, each with the same arity, the same "
